@@ -10,6 +10,7 @@ from entity_query_language import rule_mode, infer, MultipleSolutionFound, NoSol
 
 ASSUMPTIONS = [
     "the query/rule is built in its own proper mode; only evaluate() is called under the ambient mode",
+    "late_query / late_rule: evaluate() is called outside every block, the iterator it returns is consumed inside a block",
     "ambient modes: none, `with symbolic_mode():`, `with rule_mode():`, `with rule_mode(query):` and `with query:` of the "
     "evaluated query itself; each evaluation uses a freshly built query",
 ]
@@ -19,7 +20,8 @@ BOUNDS = {"quick": dict(domain_objects=3, quantifiers="an, the, infer, Add-concl
 LIMITS = {"quick": dict(max_paths=8000, max_wall=90), "thorough": dict(max_paths=60000, max_wall=400)}
 WALL_BUDGET = {"quick": 420, "thorough": 3000}
 
-AMBIENTS = ["none", "query", "rule", "rule_of_query", "with_query"]
+# late_*: the result iterator is obtained OUTSIDE every block and consumed inside one
+AMBIENTS = ["none", "query", "rule", "rule_of_query", "with_query", "late_query", "late_rule"]
 
 
 class _Null:
@@ -31,7 +33,7 @@ class _Null:
 
 
 def ambient(name, q=None):
-    if name == "none":
+    if name in ("none", "late_query", "late_rule"):
         return _Null()
     if name == "query":
         return symbolic_mode()
@@ -114,7 +116,12 @@ class C09(Case):
                         except NoSolutionFound:
                             res = ["none"]
                     else:
-                        rs = list(q.evaluate())
+                        if amb.startswith("late_"):
+                            it = q.evaluate()
+                            with (symbolic_mode() if amb == "late_query" else rule_mode()):
+                                rs = list(it)
+                        else:
+                            rs = list(q.evaluate())
                         if sp["quant"] in ("infer", "add", "an_rule"):
                             data["made"].append((amb, rs))
                             res = ["made", [[type(o).__name__, self._idx(getattr(o, "src", None), items)] for o in rs]]
